@@ -709,10 +709,16 @@ func c12Sequential(run *vfRun, t *testing.T) {
 		if err != nil {
 			t.Fatalf("sequential %s: %v", store, err)
 		}
-		for _, bh := range []string{"rotating", "norefreshtoken", "refresh-fails-idtoken-valid", "refresh-fails-idtoken-expired", "norefreshtoken-idtoken-expired"} {
+		for _, bh := range []string{"rotating", "rotating-noidtoken", "norefreshtoken", "refresh-fails-idtoken-valid", "refresh-fails-idtoken-expired", "norefreshtoken-idtoken-expired"} {
 			for _, age := range []time.Duration{50 * time.Second, 70 * time.Second, 2 * time.Minute, 30 * time.Minute} {
 				for rep := 0; rep < run.Env.Pick(2, 10); rep++ {
-					w.IdP.Set(func(c *vfIdPCfg) { c.RefreshFails = strings.HasPrefix(bh, "refresh-fails") })
+					w.IdP.Set(func(c *vfIdPCfg) {
+						c.RefreshFails = strings.HasPrefix(bh, "refresh-fails")
+						c.MintOverride = nil
+						if bh == "rotating-noidtoken" { // provider that rotates refresh tokens but returns no id_token on refresh
+							c.MintOverride = func(grant string, claims map[string]interface{}) (string, bool) { return "", grant == "refresh" }
+						}
+					})
 					id := vfIdentity{Sub: "u-seq", Email: "seq@example.com", NoRefreshToken: strings.HasPrefix(bh, "norefreshtoken")}
 					b := vfNewBrowser("")
 					if _, _, err := b.Login(p, id, "/"); err != nil {
@@ -773,7 +779,7 @@ func c12Sequential(run *vfRun, t *testing.T) {
 						continue
 					}
 					switch bh {
-					case "rotating":
+					case "rotating", "rotating-noidtoken":
 						if g1-g0 != 1 || r1.Code != 200 {
 							rep2("c12:stale-not-refreshed", "stale session with a refresh token: want one grant and the request served")
 						} else {
@@ -782,6 +788,30 @@ func c12Sequential(run *vfRun, t *testing.T) {
 							}
 							if r2.Code != 200 || g2-g1 != 0 || tok2 != tok1 {
 								rep2("c12:refreshed-session-not-persisted", "the request after the refresh does not carry the refreshed session (status, further grant or other token)")
+							}
+							// second refresh cycle: the refreshed session becomes stale again and must refresh again with the
+							// ROTATED refresh token (a provider with single-use refresh tokens revokes the family on reuse)
+							req2 := httptest.NewRequest("GET", "/", nil)
+							req2.Header.Set("Cookie", vfCookieHeader(b.Jar.For("proxy.test", "/", false)))
+							if s2, err := p.P.LoadCookiedSession(req2); err == nil {
+								old2 := time.Now().Add(-age)
+								s2.CreatedAt = &old2
+								rw2 := httptest.NewRecorder()
+								if err := p.P.SaveSession(rw2, req2, s2); err == nil {
+									b.Jar.Apply("proxy.test", "/", rw2.Header().Values("Set-Cookie"))
+									_, ok0 := w.IdP.RefreshGrants()
+									r3 := b.Get(p, "/x", "X-Vf-Id", uid+"-c")
+									_, ok1 := w.IdP.RefreshGrants()
+									tok3 := ""
+									for _, h := range w.Up.FindHit(uid + "-c") {
+										tok3 = h.Header.Get("X-Forwarded-Access-Token")
+									}
+									run.Count("sequential_second_refresh_cycles", 1)
+									detail["second_cycle"] = map[string]interface{}{"status": r3.Code, "successful_grants": ok1 - ok0, "token": tok3, "token_state": w.IdP.ATState(tok3)}
+									if r3.Code != 200 || ok1-ok0 != 1 || tok3 == tok1 || w.IdP.ATState(tok3) != "live" {
+										rep2("c12:second-refresh-cycle", fmt.Sprintf("second refresh of the same session: status %d, %d successful grants, token state %q (want 200, 1, live new token)", r3.Code, ok1-ok0, w.IdP.ATState(tok3)))
+									}
+								}
 							}
 						}
 					case "norefreshtoken", "refresh-fails-idtoken-valid":
